@@ -245,68 +245,90 @@ def unit_markfree(tier):
     return ck
 
 
+def so_hook():
+    if 'soh' not in _c: _c['soh'] = build.native_lib(['src/engine/engine_memory.c'], ['src/engine/engine_util_errmem.c'], name='memory_hook', hook_atomics=True)
+    return _c['soh']
+
+
 def unit_threadlock(tier, nthreads=2, al_fixed=None):
-    """reservations under threadlock: solver-chosen order of the atomic fetch-adds; blocks pairwise disjoint and inside the free span"""
+    """reservations under threadlock: every access to d->pstack is a scheduling point; all interleavings of the threads'
+    segments are explored with symbolic sizes; blocks must be pairwise disjoint, aligned and inside the free span"""
+    import itertools, ctypes
+    from vf import llconc
     ck = Checker('threadlock_%d' % nthreads, tier, timeout_s=200)
     S = Setup(tier, threadlock=1)
-    ex = llsym.Exec(mod(), merge=True)
+    ex = llsym.Exec(mod(), merge=False)
     st = S.state(ex)
     sizes = [z3.BitVec('size%d' % i, 64) for i in range(nthreads)]
     if al_fixed is None:
         als = [z3.BitVec('al%d' % i, 64) for i in range(nthreads)]
-        for a in als: st.pc += pow2(a, 12)
-        S.w.syms += [('al%d' % i, 'u64', s) for i, s in enumerate(als)]
-    else: als = [B(a) for a in al_fixed]
-    S.w.syms += [('size%d' % i, 'u64', s) for i, s in enumerate(sizes)]
-    X = {('size%d' % i): s for i, s in enumerate(sizes)}; X.update({('al%d' % i): s for i, s in enumerate(als)})
-    # the order in which threads perform their fetch-add is a free variable: order[k] = thread performing the k-th add
-    import itertools
-    order = z3.BitVec('order', 8)
-    perms = list(itertools.permutations(range(nthreads)))
-    states = [(st, [])]
-    def run_seq(st0, perm):
-        cur = [(st0, [])]
-        for t in perm:
-            nxt = []
-            for s0, blocks in cur:
-                s1 = s0.clone(); s1.stack = []
-                for r in ex.run('@mj_stackAllocByte', [S.w.P(S.d), sizes[t], als[t]], s1):
-                    if r.kind == 'return' and isinstance(r.value, llsym.IntPtr): nxt.append((r.state, blocks + [(t, r.value.addr)]))
-                    elif r.kind in ('unsupported', 'unwind'): ck.inconclusive.append('threadlock: %s %s' % (r.kind, r.info))
-                    elif r.kind == 'return': nxt.append((r.state, blocks + [(t, None)]))
-            cur = nxt
-        return cur
-    def seq_replay(perm, blocks, ps2):
+        for a_ in als: st.pc += pow2(a_, 12)
+        S.w.syms += [('al%d' % i, 'u64', s_) for i, s_ in enumerate(als)]
+    else: als = [B(a_) for a_ in al_fixed]
+    S.w.syms += [('size%d' % i, 'u64', s_) for i, s_ in enumerate(sizes)]
+    X = {('size%d' % i): s_ for i, s_ in enumerate(sizes)}; X.update({('al%d' % i): s_ for i, s_ in enumerate(als)})
+    dobj = S.w.map[S.d].obj; poff = S.off['pstack']
+    ex.is_shared = lambda stt, p: isinstance(p, llsym.Ptr) and p.obj == dobj and p.off == poff
+    calls = [('@mj_stackAllocByte', [S.w.P(S.d), sizes[t], als[t]]) for t in range(nthreads)]
+    outs = llconc.interleavings(ex, st, calls)
+    sched_var = z3.BitVec('schedule', 16)
+    def seq_replay(sched, blocks, ps2):
         def replay(model, witness):
             values = S.w.concretise(model)
-            calls = [('mj_stackAllocByte', [('ptr', (S.d, 0)), ('u64', sizes[t]), ('u64', als[t])], 'u64') for t in perm]
-            status = W.native_seq(so(), calls, S.w, values, [('pstack', S.d, S.off['pstack'], 'u64')])
-            detail = {'native': status[0], 'order': list(perm)}
-            if status[0] != 'ok': detail['native_detail'] = str(status[1:])[:300]; return False, detail
-            pred = [0 if a is None else W.evalnum(model, a) for _, a in blocks]
-            detail['native_blocks'] = [hex(x or 0) for x in status[1]['rets']]; detail['predicted_blocks'] = [hex(x) for x in pred]
-            ok = [int(x or 0) for x in status[1]['rets']] == pred and status[1]['out']['pstack'] == W.evalnum(model, ps2)
+            # collapse the schedule to thread order at segment granularity: [a.., b.., a..] = "b runs entirely inside a, just before a's atomic add"
+            order = []
+            for t in sched:
+                if not order or order[-1] != t: order.append(t)
+            detail = {'schedule': sched, 'collapsed': order}
+            def child():
+                lib = W.load_lib(so_hook()); nw = W.NativeWorld(S.w, values)
+                f = lib.mj_stackAllocByte; f.restype = ctypes.c_uint64
+                rets = {}
+                def call(t): rets[t] = f(*W._cargs(nw, [('ptr', (S.d, 0)), ('u64', sizes[t]), ('u64', als[t])]))
+                if len(order) == len(set(order)):
+                    for t in order: call(t)
+                elif len(order) == 3 and order[0] == order[2] and nthreads == 2:
+                    HOOK = ctypes.CFUNCTYPE(None)
+                    inner = order[1]
+                    cb = HOOK(lambda: call(inner))
+                    lib.vf_set_sched_hook(cb); call(order[0])
+                else:
+                    return {'unsupported_schedule': order}
+                return {'rets': {str(k): v for k, v in rets.items()}, 'pstack': nw.read(S.d, S.off['pstack'], 'u64')}
+            status = W.run_child(child)
+            detail['native'] = status[0]
+            if status[0] != 'ok' or 'rets' not in status[1]: detail['native_detail'] = str(status[1:])[:300]; return False, detail
+            pred = {str(t): (0 if a_ is None else W.evalnum(model, a_)) for t, a_ in blocks}
+            detail['native_blocks'] = {k: hex(v or 0) for k, v in status[1]['rets'].items()}; detail['predicted_blocks'] = {k: hex(v) for k, v in pred.items()}
+            ok = {k: int(v or 0) for k, v in status[1]['rets'].items()} == pred and status[1]['pstack'] == W.evalnum(model, ps2)
             return ok, detail
         return replay
-    for pi, perm in enumerate(perms):
-        st0 = st.clone(); st0.pc.append(order == pi)
-        for sN, blocks in run_seq(st0, perm):
-            pc = sN.pc
-            ps2 = S.fld(ex, sN, 'pstack')
-            rp = seq_replay(perm, blocks, ps2)
-            live = [(t, a) for t, a in blocks if a is not None]
-            for t, a in live:
-                ck.prove('threadlock: block of thread %d aligned, inside [arena top, old stack top)' % t, pc,
-                         z3.And(a & (als[t] - 1) == 0, z3.UGE(a, S.limit), z3.ULE(a, S.top), z3.ULE(sizes[t], S.top - a)), site='stackalloc:threadlock-inside', decode=dec(S, X), replay=rp)
-            for (t1, a1), (t2, a2) in itertools.combinations(live, 2):
-                ck.prove('threadlock: blocks of threads %d and %d are disjoint' % (t1, t2), pc,
-                         z3.Or(z3.And(z3.ULE(a1, a2), z3.ULE(sizes[t1], a2 - a1)), z3.And(z3.ULE(a2, a1), z3.ULE(sizes[t2], a1 - a2))), site='stackalloc:threadlock-disjoint', decode=dec(S, X), replay=rp)
-            ck.prove('threadlock: reserved span stays inside the free region', pc, z3.And(z3.ULE(ps2, S.narena), z3.ULE(S.parena, S.narena - ps2)), site='stackalloc:threadlock-invariant', decode=dec(S, X), replay=rp)
-            ck.reach('threadlock order %s' % (perm,), pc)
-            ck.memory_obligations([llsym.Result('return', sN)], decode=dec(S, X))
+    nsched = 0
+    for si, (sN, sched, rets, outcome) in enumerate(outs):
+        if outcome != 'return':
+            if outcome.startswith('error'): continue      # stack overflow error: allowed outcome (fatal handler)
+            ck.inconclusive.append('threadlock schedule %s: %s' % (sched, outcome)); continue
+        nsched += 1
+        pc = sN.pc + [sched_var == si]
+        ps2 = S.fld(ex, sN, 'pstack')
+        blocks = [(t, (rets[t].addr if isinstance(rets[t], llsym.IntPtr) else None)) for t in range(nthreads)]
+        rp = seq_replay(sched, blocks, ps2)
+        live = [(t, a_) for t, a_ in blocks if a_ is not None]
+        tag = 'schedule %s' % ''.join(map(str, sched))
+        for t, a_ in live:
+            ck.prove('threadlock %s: block of thread %d aligned, inside [arena top, old stack top)' % (tag, t), pc,
+                     z3.And(a_ & (als[t] - 1) == 0, z3.UGE(a_, S.limit), z3.ULE(a_, S.top), z3.ULE(sizes[t], S.top - a_)), site='stackalloc:threadlock-inside', decode=dec(S, X), replay=rp)
+        for (t1, a1), (t2, a2) in itertools.combinations(live, 2):
+            ck.prove('threadlock %s: blocks of threads %d and %d are disjoint' % (tag, t1, t2), pc,
+                     z3.Or(z3.And(z3.ULE(a1, a2), z3.ULE(sizes[t1], a2 - a1)), z3.And(z3.ULE(a2, a1), z3.ULE(sizes[t2], a1 - a2))), site='stackalloc:threadlock-disjoint', decode=dec(S, X), replay=rp)
+        ck.prove('threadlock %s: reserved span stays inside the free region' % tag, pc, z3.And(z3.ULE(ps2, S.narena), z3.ULE(S.parena, S.narena - ps2)), site='stackalloc:threadlock-invariant', decode=dec(S, X), replay=rp)
+        ck.reach('threadlock %s reachable' % tag, pc)
+        ck.memory_obligations([llsym.Result('return', sN)], decode=dec(S, X))
+    if nsched < 2: ck.error('fewer than 2 complete schedules explored (%d)' % nsched)
+    ck.notes.append('%d complete schedules' % nsched)
+    ck.paths['schedules'] = nsched
     ck.functions |= {f.lstrip('@') for f in ex.called}
     ck.queries += ex.nq; ck.solver_s += ex.tq
-    # single reservation: replayable natively
     return ck
 
 
